@@ -604,7 +604,7 @@ def _predicate(ctx, fn, expr: ast.AST) -> T.Tuple[str, T.Callable[[str], bool], 
             return name, True
         raise AnalysisError(f"C20/R3: predicate leaf not enumerated: {unparse(leaf)[:70]}")
 
-    bf = shapes.bool_expr_bf(expr, classify)
+    bf = shapes.bool_expr_bf(shapes.inline(fn, expr, prog), classify)
     ctx.require(len(pat_vars) == 1, f"engine predicate tests several variables: {pat_vars}")
 
     def evaluator(w: str) -> bool:
